@@ -61,6 +61,13 @@ def acls(tier):
     # both apply inside it (here: a %global catch-all reaches below 'c' inside 'a 2' only, never inside 'a 1')
     add("overlap-specific-nested-global", lambda: [ARule("a 2", [ARule("~", glob=True)]), ARule("a *", [ARule("c", [ARule("d")])])])
     add("overlap-specific-nested-global-2", lambda: [ARule("a 2", [ARule("d", glob=True)]), ARule("a *", [ARule("c *", [ARule("c")])])])
+    # %prio: among the rules matching a row the one with the highest prio governs, whatever the shared-symbols metric says:
+    # a local catch-all with children lifted above a specific %global rule (its children then apply), a %global rule lifted
+    # above a specific local rule (the local rule's children then do not), inside a block and at top level
+    add("overlap-prio-local-over-global", lambda: [ARule("c *", glob=True), ARule("~", [ARule("e")], prio=1)])
+    add("overlap-prio-global-over-local", lambda: [ARule("c 1 ~", [ARule("d")]), ARule("c *", glob=True, prio=1)])
+    add("overlap-prio-nested", lambda: [ARule("a *", [ARule("c *", glob=True), ARule("~", [ARule("e")], prio=2), ARule("c 1 ~", [ARule("d")], prio=1)])])
+    add("overlap-prio-cant-delete", lambda: [ARule("c *", cant_delete=True, prio=1), ARule("~", cant_delete=False)])
     # a deletable rule next to a protected one, at top level and inside a block
     add("mixed-cd-top", lambda: [ARule("a *"), ARule("b *", cant_delete=True)])
     add("mixed-cd-nested", lambda: [ARule("a *", [ARule("c *"), ARule("d", cant_delete=True)])])
@@ -93,6 +100,7 @@ def merge_pairs():
     add("same-block-different-children", lambda: [ARule("a *", [ARule("c *")])], lambda: [ARule("a *", [ARule("d")]), ARule("b ~")])
     add("nested-same-rows", lambda: [ARule("a *", [ARule("c *"), ARule("d")])], lambda: [ARule("a *", [ARule("c *", [ARule("d *")])])])
     add("cant-delete-mix", lambda: [ARule("a *", [ARule("c *")], cant_delete=True)], lambda: [ARule("a *", [ARule("d")], cant_delete=False)])
+    add("prio-united-by-max", lambda: [ARule("~", [ARule("e")], prio=1)], lambda: [ARule("~", [ARule("d")]), ARule("c *", glob=True)])
     add("global-and-local-elsewhere", lambda: [ARule("d", glob=True), ARule("a *")], lambda: [ARule("a *", [ARule("c *")]), ARule("b *")])
     return P
 
